@@ -7,7 +7,7 @@ import operator
 from .. import gen
 from ..attach import observe
 from ..predprobe import gen_pred_case
-from ..rateprobe import run_case, exc_detail
+from ..rateprobe import run_case, exc_detail, aim_at_floor_window
 from ..util import KIND, MODEL_NAMES, build, models
 from .c13 import _Variants
 
@@ -42,6 +42,10 @@ def generate(ctx):
     for _ in range(n):
         cfg = gen.gen_cfg(ctx.rng)
         case, meta = gen.gen_case(ctx.rng, model="BradleyTerryFull", cfg=cfg, kmax=2)
+        if ctx.rng.random() < 0.1:
+            aimed = aim_at_floor_window(case, ctx.rng)  # the window (0, kappa) just above the variance floor
+            if aimed is not None:
+                case = aimed
         yield "bt2", dict(case=case, meta=meta)
     nb = ctx.budget(36, 3000)
     for _ in range(nb):
